@@ -61,7 +61,7 @@ Definition out_eqb (a b : out) : bool :=
   | ORef r, ORef r' => ref_eqb r r'
   | ONone, ONone => true
   | OTrunc x y, OTrunc x' y' => refs_eqb x x' && refs_eqb y y'
-  | OProc k s o, OProc k' s' o' => Bool.eqb k k' && (s =? s') && (o =? o')
+  | OProc k s o f, OProc k' s' o' f' => Bool.eqb k k' && (s =? s') && (o =? o') && (f =? f')
   | ORead RdBeyond, ORead _ => true   (* model: a stale ref into never-written bytes of the live mapping; not modelled *)
   | ORead r, ORead r' => rd_eqb r r'
   | OBlocked, OBlocked => true
